@@ -302,6 +302,11 @@ func Run(r *fw.Run) {
 			}
 		}
 	}
+	// unclean spellings of a nested go.mod (they are invalid names, and mark no module boundary), next to clean
+	// files of that directory, with and without the real go.mod
+	for _, u := range []string{"sub//go.mod", "sub/./go.mod", "./sub/go.mod", "x/../sub/go.mod", "sub//GO.MOD", "sub/go.mod/", "sub/deep/../go.mod", "/sub/go.mod", "sub/go.mod/.", "//go.mod", "./go.mod"} {
+		jobs = append(jobs, job{[]string{u, "sub/x.go"}}, job{[]string{"sub/x.go", "sub/deep/y.go", u}}, job{[]string{"go.mod", u, "sub/x.go", "y.go"}}, job{[]string{u, "sub/go.mod", "sub/x.go"}})
+	}
 	// vendor directories inside vendor directories (which "vendor" element decides depends on the go version)
 	{
 		vv := []string{"go.mod", "cmd/vendor/vendor/v.go", "cmd/vendor/example.com/x/internal/vendor/v.go", "a/vendor/b/vendor/c.go", "vendor/vendor/x.go", "vendor/a/vendor/b.go", "a/vendor/v.go", "a/vendor/vendor.go", "a/vendor/b/c.go", "vendor/modules.txt", "a/vendor/modules.txt", "a/vendor/vendor/modules.txt", "vendor/vendor/modules.txt", "x/vendorvendor/vendor/y.go", "vendor.go", "a/vendor"}
